@@ -279,6 +279,14 @@ impl Token {
     }
 }
 
+/// Constructor with a chosen nonce for the verification hooks (`verif_hooks/token_decision.rs`).
+#[cfg(quinn_rs_quinn_verif)]
+impl Token {
+    pub(crate) fn verif_with_nonce(payload: TokenPayload, nonce: u128) -> Self {
+        Self { payload, nonce }
+    }
+}
+
 /// Content of a [`Token`] that is encrypted from the client
 pub(crate) enum TokenPayload {
     /// Token originating from a Retry packet
